@@ -291,6 +291,12 @@ func (x FV) ResolveTrace(stop func(*ssa.Function) bool) (FV, []FV) {
 			}
 			al, isAl := FreeVarBinding(y).(*ssa.Alloc)
 			if !isAl {
+				// the captured variable's cell is some other address of the creator's frame (a per-iteration loop
+				// variable: a phi of cells); addresses stand for their loads here, as with fields
+				if b := FreeVarBinding(y); b != nil {
+					x = FV{b, x.F.Parent}
+					continue
+				}
 				return FV{v, x.F}, trace
 			}
 			sts := StoresTo(al)
@@ -298,6 +304,22 @@ func (x FV) ResolveTrace(stop func(*ssa.Function) bool) (FV, []FV) {
 				return FV{v, x.F}, trace
 			}
 			x = FV{sts[0].Val, x.F.Parent}
+		case *ssa.Extract:
+			// one result of a helper with several results and a single return statement
+			call, isCall := y.Tuple.(*ssa.Call)
+			if !isCall {
+				return FV{v, x.F}, trace
+			}
+			f := Callee(call)
+			if f == nil || f.Blocks == nil || !core.InModule(f) || (stop != nil && stop(f)) {
+				return FV{v, x.F}, trace
+			}
+			rets := Returns(f)
+			if len(rets) != 1 || y.Index >= len(rets[0].Results) {
+				return FV{v, x.F}, trace
+			}
+			trace = append(trace, FV{v, x.F})
+			x = FV{rets[0].Results[y.Index], &Frame{Fn: f, Site: call, Parent: x.F}}
 		case *ssa.Call:
 			f := Callee(y)
 			if f == nil || f.Blocks == nil || !core.InModule(f) || (stop != nil && stop(f)) {
@@ -318,3 +340,37 @@ func (x FV) ResolveTrace(stop func(*ssa.Function) bool) (FV, []FV) {
 
 // ParamIndex is the position of p among its function's parameters (receiver first).
 func ParamIndex(p *ssa.Parameter) int { return paramIndex(p) }
+
+// OutOfGoroutine follows a value used inside a goroutine body back to the function that started it: a captured
+// variable to its binding, a parameter of a function started by exactly one `go` statement to that statement's
+// argument.
+func OutOfGoroutine(all []*ssa.Function, v ssa.Value) ssa.Value {
+	v = Strip(v)
+	for i := 0; i < 4; i++ {
+		switch x := v.(type) {
+		case *ssa.FreeVar:
+			b := FreeVarBinding(x)
+			if al, ok := b.(*ssa.Alloc); ok {
+				if sts := StoresTo(al); len(sts) == 1 {
+					v = Strip(sts[0].Val)
+					continue
+				}
+			} else if b != nil {
+				v = Strip(b)
+				continue
+			}
+		case *ssa.Parameter:
+			if gos := GoTargetOf(all, x.Parent()); len(gos) == 1 {
+				if idx := paramIndex(x); idx >= 0 && idx < len(gos[0].Call.Args) {
+					v = Strip(gos[0].Call.Args[idx])
+					continue
+				}
+			}
+		}
+		break
+	}
+	return v
+}
+
+// Chain lists the instructions from the root frame down to the event.
+func Chain(e Event) []ssa.Instruction { return chain(e) }
